@@ -1,0 +1,7 @@
+//go:build verif
+// +build verif
+
+package aggregator
+
+// VerifInLen returns the number of points queued in the aggregator's inbox (verification harness only).
+func (a *Aggregator) VerifInLen() int { return len(a.in) }
